@@ -1,6 +1,7 @@
 /- Line-protocol operations of the tier 2 correlator model (stateful). -/
 import SmppVerif.Model.Wire
 import SmppVerif.Model.Corr
+import SmppVerif.Model.SweepTasks
 
 namespace SmppVerif.DriverCorr
 open SmppVerif SmppVerif.Wire SmppVerif.Corr
@@ -117,6 +118,35 @@ def step (s : CState) (ws : List String) : Option (CState × String) :=
       let (s', o, h) := handleDeliver s now m
       some (s', "ok" ++ showOuts o ++ " H=" ++ showHandled h)
     | _, _ => some (s, "bad-op")
+  | "c.sched" :: evs =>
+    -- a schedule of turns (Model/SweepTasks.lean): P@clock@msg start put, G@clock@msg start get, R@index@clock resume
+    let parseEv (w : String) : Option SweepTasks.Ev :=
+      match w.splitOn "@" with
+      | ["P", c, m] => match c.toNat?, parseMsg m with
+        | some c, some m => some (.start (.put m) c)
+        | _, _ => none
+      | ["G", c, m] => match c.toNat?, parseMsg m with
+        | some c, some m => some (.start (.get m) c)
+        | _, _ => none
+      | ["R", i, c] => match i.toNat?, c.toNat? with
+        | some i, some c => some (.resume i c)
+        | _, _ => none
+      | _ => none
+    match evs.mapM parseEv with
+    | none => some (s, "bad-op")
+    | some evs =>
+      let (w, obs) := SweepTasks.run ⟨s, []⟩ evs
+      -- hook calls in the order they were made, then what the responses found (by sequence number: the real `get` only
+      -- tells when it returns, which is after its sweep)
+      let hooks := String.join (obs.map fun
+        | .timeout _ o => showOuts o
+        | _ => "")
+      let found := obs.filterMap fun
+        | .matched k _ => some (k, s!" M={k}")
+        | .unmatched k => some (k, s!" U={k}")
+        | _ => none
+      let sorted := found.toArray.qsort (fun a b => a.1 < b.1 || (a.1 == b.1 && a.2 < b.2))
+      some (w.cs, "ok" ++ hooks ++ String.join (sorted.toList.map (·.2)) ++ s!" tasks={w.tasks.length}")
   | ["c.dump"] => some (s, "ok " ++ dump s)
   | _ => none
 
